@@ -48,14 +48,15 @@ V07(o) == IF o.obs.result # "ok" THEN "not-ok"
           ELSE IF o.obs.unmapped = 1 THEN "coordinate-not-from-input"
           ELSE IF o.obs.zint # 1 THEN "zoom-not-integral"
           ELSE IF ~LevelsIncreasing(Map(LAMBDA z : z.res, o.obs.zooms)) THEN "levels"
-          ELSE IF ~ZoomsOKW(o.items, o.chroms, o.obs.zooms) THEN "zoom-records"
+          ELSE IF o.vmap = "intinf" /\ ~ZoomsOKWX(o.items, o.chroms, o.obs.zooms, 3) THEN "zoom-records"
+          ELSE IF o.vmap # "intinf" /\ ~ZoomsOKW(o.items, o.chroms, o.obs.zooms) THEN "zoom-records"
           ELSE IF \E k \in 1..Len(o.obs.zqueries) : ZQBad(o, o.obs.zqueries[k]) THEN "zoom-query"
           ELSE "ok"
 
 Verdict(o) == CASE Prop = "C01" -> V01(o) [] Prop = "C03" -> V03(o) [] Prop = "C06" -> V06(o) [] Prop = "C07" -> V07(o)
 
 \* drift: the real tiling differs from the mechanism layer although it is faithful
-Drift(o) == Prop = "C07" /\ o.obs.result = "ok" /\ o.opts.zmode = "manual" /\ o.scale = 1 /\ "nomech" \notin DOMAIN o /\ o.obs.zooms # o.mz
+Drift(o) == Prop = "C07" /\ o.obs.result = "ok" /\ o.opts.zmode = "manual" /\ o.scale = 1 /\ "nomech" \notin DOMAIN o /\ o.vmap = "int" /\ o.obs.zooms # o.mz
 
 Post == /\ \A i \in 1..Len(Obs) : LET v == Verdict(Obs[i]) IN
                                   /\ (v = "ok" \/ PrintT(<<"BAD", i, v>>))
